@@ -176,17 +176,17 @@ let p_tables (s : string) : tables =
   | _ -> failwith "tables"
 
 (* ------------------------------------------------------------------ per-schema cache *)
-type sinfo = { sch : schema; spec : meta option; mdl : meta option; xs : xschema option; xq : xschema option;
-               defs : (n * gdef) list }
+type sinfo = { sch : schema; spec : meta option Lazy.t; mdl : meta option Lazy.t; xs : xschema option Lazy.t;
+               xq : xschema option Lazy.t; defs : (n * gdef) list Lazy.t }
 let cache : (string, sinfo) Hashtbl.t = Hashtbl.create 16
 let info (term : string) : sinfo =
   match Hashtbl.find_opt cache term with
   | Some i -> i
   | None ->
     let sch = p_schema term in
-    let xq = expand_schema true sch in
-    let i = { sch; spec = meta_of_schema sch; mdl = f8c_meta sch; xs = expand_schema false sch; xq;
-              defs = (match xq with Some x -> schema_defs x | None -> []) } in
+    let xq = lazy (expand_schema true sch) in
+    let i = { sch; spec = lazy (meta_of_schema sch); mdl = lazy (f8c_meta sch); xs = lazy (expand_schema false sch); xq;
+              defs = lazy (match Lazy.force xq with Some x -> schema_defs x | None -> []) } in
     if Hashtbl.length cache > 64 then Hashtbl.reset cache;
     Hashtbl.add cache term i; i
 
@@ -210,15 +210,15 @@ let () = run_protocol (fun case impl ->
        let ans =
          (match what with
           | "wf" -> wf_schema si.sch
-          | "inj" -> defs_injective si.defs
+          | "inj" -> defs_injective (Lazy.force si.defs)
           | "clash" ->
             let mt = bytes_of_str (next t) in
-            (match si.xq with
-             | Some x -> (match find_items x mt with Some its -> msg_clash si.defs its | None -> false)
+            (match (Lazy.force si.xq) with
+             | Some x -> (match find_items x mt with Some its -> msg_clash (Lazy.force si.defs) its | None -> false)
              | None -> false)
           | "quirk" ->
             let mt = bytes_of_str (next t) in
-            (match si.xq, si.xs with
+            (match (Lazy.force si.xq), (Lazy.force si.xs) with
              | Some a, Some b -> (match find_items a mt, find_items b mt with
                                   | Some p, Some q -> not (gdef_eqb p q) | _, _ -> false)
              | _, _ -> false)
@@ -226,23 +226,23 @@ let () = run_protocol (fun case impl ->
             let mt = bytes_of_str (next t) in
             let rec nums (x : ritem) : n list =
               (match x with RField (k, _, _, _) -> [k] | RGroup (k, _, _, sub) -> k :: List.concat_map nums sub) in
-            (match si.xs, si.spec with
+            (match (Lazy.force si.xs), (Lazy.force si.spec) with
              | Some x, Some m ->
                (match find_items x mt with
                 | Some its -> List.exists (fun k -> lossy_of m.mt_tables k) (List.concat_map nums its)
                 | None -> false)
              | _, _ -> false)
-          | "noclass" -> (match si.spec with Some m -> uses_undefined_class m | None -> false)
+          | "noclass" -> (match (Lazy.force si.spec) with Some m -> uses_undefined_class m | None -> false)
           | _ -> failwith "Q") in
        (b01 ans, true, true)
      | "T" ->
-       let ms = (match si.mdl with
+       let ms = (match (Lazy.force si.mdl) with
                  | None -> "F8C-FAIL"
                  | Some m -> if uses_undefined_class m then "COMPILE-FAIL" else pr_tables m.mt_tables) in
-       let oi = (match si.spec with
+       let oi = (match (Lazy.force si.spec) with
                  | Some sp -> (try c13_tables_ok_m sp (p_tables impl) with _ -> false)
                  | None -> false) in
-       let om = (match si.spec, si.mdl with
+       let om = (match (Lazy.force si.spec), (Lazy.force si.mdl) with
                  | Some sp, Some m -> (not (uses_undefined_class m)) && c13_tables_ok_m sp m.mt_tables
                  | _, _ -> false) in
        (ms, oi, om)
@@ -253,7 +253,7 @@ let () = run_protocol (fun case impl ->
        let probes = times np (fun () -> let h = p_pnodes t in let b = p_pnodes t in (h, b)) in
        (* the model: trait tree f8c generates, outcomes the codec produces on it *)
        let (ms, mnode_m, outs_m) =
-         (match si.mdl with
+         (match (Lazy.force si.mdl) with
           | None -> ("F8C-FAIL", None, [])
           | Some m ->
             if uses_undefined_class m then ("COMPILE-FAIL", None, [])
@@ -266,8 +266,8 @@ let () = run_protocol (fun case impl ->
                     (Buffer.contents b, Some nd, outs)
                   | _, _ -> ("NO-SUCH-MESSAGE", None, []))) in
        let ok nd outs =
-         if kind = "M" then (match si.spec with Some sp -> c13_msg_ok_m sp mt nd probes outs | None -> false)
-         else (match si.xs with Some x -> c14_ok_x x mt nd probes outs | None -> false) in
+         if kind = "M" then (match (Lazy.force si.spec) with Some sp -> c13_msg_ok_m sp mt nd probes outs | None -> false)
+         else (match (Lazy.force si.xs) with Some x -> c14_ok_x x mt nd probes outs | None -> false) in
        let oi =
          (try
             (match split_str " |" impl with
